@@ -30,13 +30,6 @@ func buildAclFixture(dir string, o harness.Options) error {
 		w.IBTPTx(harness.User(0), harness.MkIBTP(to, from, 1, pb.IBTP_INTERCHAIN, 0), []byte("p"))); err != nil {
 		return err
 	}
-	rc, err := w.Call(harness.ChainAdmin(harness.ChainA), harness.AddrService, "UpdateService", pb.String(harness.ChainA+":s2"), pb.String("pending-name"), pb.String("i"), pb.String(""), pb.String("d"), pb.String("r"))
-	if err != nil || rc.Status != pb.Receipt_SUCCESS {
-		return fmt.Errorf("open proposal: %v %s", err, string(rc.Ret))
-	}
-	if err := os.WriteFile(filepath.Join(dir, "open-proposal.id"), []byte(harness.ProposalID(rc)), 0644); err != nil {
-		return err
-	}
 	// ---- further callers who are "everyone else":
 	// the admin of an appchain whose id differs from chainA's only in letter case,
 	twin := harness.ChainAdmin(aclTwinChain)
@@ -57,7 +50,17 @@ func buildAclFixture(dir string, o harness.Options) error {
 		if err := w.Approve(harness.ProposalID(rc)); err != nil {
 			return err
 		}
-		rc, err = w.Call(harness.AdminKey(0), harness.AddrRole, "FreezeRole", pb.String(k.Addr.String()), pb.String("r"))
+	}
+	// the open proposal is created while both are still available: its recorded electorate lists them
+	rc, err := w.Call(harness.ChainAdmin(harness.ChainA), harness.AddrService, "UpdateService", pb.String(harness.ChainA+":s2"), pb.String("pending-name"), pb.String("i"), pb.String(""), pb.String("d"), pb.String("r"))
+	if err != nil || rc.Status != pb.Receipt_SUCCESS {
+		return fmt.Errorf("open proposal: %v %s", err, string(rc.Ret))
+	}
+	if err := os.WriteFile(filepath.Join(dir, "open-proposal.id"), []byte(harness.ProposalID(rc)), 0644); err != nil {
+		return err
+	}
+	for _, k := range []*harness.Key{frozenAdm, logoutAdm} {
+		rc, err := w.Call(harness.AdminKey(0), harness.AddrRole, "FreezeRole", pb.String(k.Addr.String()), pb.String("r"))
 		if err != nil || rc.Status != pb.Receipt_SUCCESS {
 			return fmt.Errorf("FreezeRole: %v %s", err, string(rc.Ret))
 		}
@@ -201,6 +204,28 @@ func acl17Case(w *vlog.W, a *wargs, id int, rng *rand.Rand, opts harness.Options
 		argv, ok := m.WellTyped(rng, argPool)
 		if !ok {
 			continue
+		}
+		// aimed calls: arguments taken from the victim's registered record, where a generic pool never lands
+		if aim := rng.Intn(12); aim < 2 {
+			for _, cm := range classified {
+				switch {
+				case aim == 0 && cm.CName == "ServiceManager" && cm.Name == "UpdateService":
+					// name and details as registered: the branch that rewrites intro and black list without a proposal
+					m, cls = cm, model.AclClass(cm.CName, cm.Name)
+					roleName = everyoneElse[rng.Intn(len(everyoneElse))]
+					victim := []string{harness.ChainA, harness.ChainB}[rng.Intn(2)]
+					argv = []*pb.Arg{pb.String(victim + ":s1"), pb.String("svc-" + victim + "-s1"), pb.String(fmt.Sprintf("intro-%d", rng.Intn(1000))),
+						pb.String([]string{"", harness.FullID(harness.ChainC, "s1")}[rng.Intn(2)]), pb.String("details"), pb.String("reason")}
+					w.Count("aimed_calls:update-service-with-registered-name", 1)
+				case aim == 1 && cm.CName == "Governance" && cm.Name == "Vote":
+					// an admin who was in the open proposal's electorate and has been frozen since
+					m, cls = cm, model.AclClass(cm.CName, cm.Name)
+					roleName = []string{"frozen-gov-admin", "frozen-gov-admin-with-pending-logout"}[rng.Intn(2)]
+					argv = []*pb.Arg{pb.String(string(pidB)), pb.String([]string{"approve", "reject"}[rng.Intn(2)]), pb.String("reason")}
+					w.Count("aimed_calls:vote-by-frozen-admin-of-the-electorate", 1)
+				}
+			}
+			k = roles[roleName]
 		}
 		var as []string
 		for _, x := range argv {
